@@ -242,22 +242,22 @@ CLAIMS["C20"] = (
 ADDENDA = {
     "C01": "Added: only the sentinel stops the parse (every real value incl. type 0 / empty payload goes on to the consume); no state-dependent return before the loop and none right after a consume; the length grows by the number of BYTES of the chunk (len() of a chunk not proved to be `bytes` is a different symbol). Reader layout: the type handed to the connection is bound only by a varint read, the payload only by _read(<length>) or the empty payload, the length only by a varint read, in wire order; for reads after the framing marker no real value (samples up to 2^64) is a reason to give up. Type and payload handed over were bound in the same loop iteration; guards on later reads that the checker cannot fold are rejected.",
     "C02": "Added: the bytes handed to the transport write are never rebound before it. Every store to the writer slot is the transport's write or None. Outside the frame helpers exactly one call site reaches EncryptCipher.encrypt; a batch walked more than once is declared re-iterable.",
-    "C04": "Added: in the plaintext loop the framing marker is examined before any give-up return. A Noise frame is consumed from the buffer only after its handler returned (a frame failing authentication stays at the head and fails again until connection_lost arrives), unless every authenticating call is handled locally. No normal exit of the READY handler avoids the decrypt; no function on the report/close path writes the receive buffer (the plaintext helper stays fail-closed through the rejected byte at its head). Reporting an error cannot raise by itself (expression totality of the helpers' error path). A handler that can catch InvalidTag keeps its mapping to the invalid-key error.",
+    "C04": "Added: in the plaintext loop the framing marker is examined before any give-up return. A Noise frame is consumed from the buffer only after its handler returned (a frame failing authentication stays at the head and fails again until connection_lost arrives), unless every authenticating call is handled locally. No normal exit of the READY handler avoids the decrypt; no function on the report/close path writes the receive buffer (the plaintext helper stays fail-closed through the rejected byte at its head). Reporting an error cannot raise by itself (expression totality of the helpers' error path). A handler that can catch InvalidTag keeps its mapping to the invalid-key error. (R4) the ephemeral key of a session is the Noise library's own: the package overrides no key generation, supplies no key pair and registers no key agreement in its backend.",
     "C05": "Added (R3): the one-shot guard already refuses a second caller when the phase first suspends (state left, or an in-progress marker tested by the guard is set) - no two overlapping attempts on one object. (R6) disconnect(), force_disconnect() and report_fatal_error() reach the closer on every normal path; a transport write error reaches send_messages' reporting handler as a class it catches (nothing below converts or swallows it). The set of visible states is exactly the five of the statement.",
     "C06": "Added (R2): the version guard is evaluated over major 0..300 x minor pairs with APIVersion as the ordered pair its dataclass comparison uses. (R1) after the responses arrived nothing ends the exchange before each verdict; (R5) the parameter object the verdicts read is the client's live one - bound once on each side, handed over by reference, updated in place by the expected_name setter, not frozen. APIClient.connect / finish_connection pass the caller's login flag through unchanged. The login flag is never rebound on its way to the exchange.",
     "C07": "Added: every future completed by the closer and its callees is tested not-done first (an InvalidStateError after CLOSED would lose the callback); the client's hook invokes the callback bound by value from this start_connection() call (or an attribute every call overwrites unconditionally). The client's hook passes the connection's reason to the user's callback unchanged. A stop callback remembered in client state is stored only once start_connection() can no longer be refused. The task running the user's stop coroutine is created on the running loop.",
-    "C09": "Added (R3): a wrong framing marker is diagnosed before any give-up return of the plaintext loop; in the closer the connect-phase interrupts are triggered before the frame helper is closed (FIFO wake-up order decides which error the connecting task reports). Building a connection error cannot fail (no raising lookup in the error constructors and the helpers used while constructing one); write-path rule shared with C05.R6. The interruption sentinel stays outside the connection-error hierarchy. (R1) awaits of callback-completed futures are bounded by timers that only act on a pending future, never by asyncio.timeout()/wait_for().",
+    "C09": "Added (R3): a wrong framing marker is diagnosed before any give-up return of the plaintext loop; in the closer the connect-phase interrupts are triggered before the frame helper is closed (FIFO wake-up order decides which error the connecting task reports). Building a connection error cannot fail (no raising lookup in the error constructors and the helpers used while constructing one); write-path rule shared with C05.R6. The interruption sentinel stays outside the connection-error hierarchy. (R1) awaits of callback-completed futures are bounded by timers that only act on a pending future, never by asyncio.timeout()/wait_for(). (R2) clean-up blocks of a try that awaits reach through Optional attributes only under a test of them.",
     "C10": "Added (R2): a cancelled pong deadline is reset to None on the dispatcher path, so the `is None` arm guard fires again. (R1) on an open connection the dispatcher has no normal exit that avoids the parse (no per-type fast path skipping the liveness bookkeeping); (R3) a time handed to the scheduler through a local is read after the last suspension point.",
     "C11": "Added (R2): the request's timeout timer is cancelled or has fired on every exit. The registered response callback has exactly one binding (no second, cheaper collector for some argument combination). No bare future completion is registered as a message handler.",
     "C14": "Added (R3): from_dict keeps a field iff its key is present (or missing keys are not ignored) - never depending on the stored value. The float conversion is not memoised; model conversions never choose between dictionary entries by truthiness. No two fields share the metadata mapping the converter is recorded in.",
-    "C19": "Added (R3): a failing connect phase clears the installed connection only while it is still the phase's own. Nothing between closing the connection and forgetting it in APIClient.disconnect can raise by itself. With a connection installed every path of disconnect() closes it.",
+    "C19": "Added (R3): a failing connect phase clears the installed connection only while it is still the phase's own. Nothing between closing the connection and forgetting it in APIClient.disconnect can raise by itself. With a connection installed every path of disconnect() closes it. Nothing after the guarded phase of start_connection / finish_connection can raise by itself.",
     "C08": "Added: the 'timer already fired' exemption of R2 holds only for a future created in the same function. (R7) package callers await the graceful close directly, or its closer sits in a finally covering the awaits. (R8) every library call on the release path is one of a frozen list of non-raising release operations (the sequence cannot be cut short). (R8) no expression in the closer or before it in report_fatal_error can raise by itself; (R9) a fresh resource is registered for the closer before anything else is done with it.",
     "C13": "Added: the message parsed is an instance of the class looked up for this very packet; the folded value of every registration call's type set (comprehensions over the registry included) contains only server- or both-originated types.",
     "C15": "Added: no parameter of a command method is rebound before its presence guard. The caller's value is written into every service argument on every path before it is appended.",
     "C20": "Added: every failure of mDNS start-up or request surfaces as ResolveAPIError - the only class the decision tree absorbs before falling back to the OS resolver (handler chain followed into the manager). The instance/flag pair analysis also rejects a half-written pair at exceptional exits; constant regular expressions in the address classifiers are evaluated by the checker over an extended address table. The service-info construction is inside the error conversion and the created-instance clean-up. One pass over the configured addresses; an instance is requested only in the places that close it again.",
-    "C17": "Added (R4): the unsubscribe function is located by role and sees the pending start task at call time (a slot rebound by start requests is not bound by value). Buffered camera chunks are only dropped with their completed image; the start handler's result is never replaced before the answer.",
+    "C17": "Added (R4): the unsubscribe function is located by role and sees the pending start task at call time (a slot rebound by start requests is not bound by value). Buffered camera chunks are only dropped with their completed image; the start handler's result is never replaced before the answer; only the unsubscribe function cancels a start task.",
     "C12": "Added: a range-guarded registry lookup outside the try is judged per id. A parsed message always reaches the subscriber lookup.",
-    "C16": "Added: the Bluetooth message callbacks contain no expression that can raise by itself. Bluetooth operations are not serialised behind a lock / semaphore / event.",
+    "C16": "Added: the Bluetooth message callbacks contain no expression that can raise by itself. Bluetooth operations are not serialised behind a lock / semaphore / event. Definite assignment of locals in every Bluetooth function of the client (no path ends in UnboundLocalError instead of its outcome).",
     "C18": "Added: listen / unlisten take the zeroconf instance from the manager at the call; the failure handler has no raise / early return of its own.",
 }
 
@@ -307,7 +307,7 @@ def main() -> int:
                 "kind_free_text": "repository-specific static analysis: ast-based loader with a canonicalising normaliser (renames undone against "
                 "a baseline symbol inventory, new helpers inlined, walrus/alias/temporary/comprehension canonical forms), .proto reader, "
                 "descriptor-literal decoder, constant evaluator, annotation-based callee resolver, statement CFG + monotone and disjunctive "
-                "dataflow, guard truth tables, linear-expression abstract interpreter, may-raise analysis of expressions",
+                "dataflow, guard truth tables, linear-expression abstract interpreter, may-raise analysis of expressions, definite assignment",
             }
         ],
         "checks": checks,
